@@ -49,6 +49,7 @@ class Outcome:
         self.machinery_errors: list[str] = []
         self.model_mismatches: list[dict] = []
         self.judged = 0
+        self.out_of_model = 0
         self.kfs = load_known_findings()  # a finding may surface in any check whose programs reach its trigger
 
     # -- known findings
@@ -92,6 +93,10 @@ class Outcome:
                                                     "examples": self.model_mismatches[:3]}
             if len(self.model_mismatches) > max(3, 0.02 * max(1, self.judged)):
                 self.machinery(f"{len(self.model_mismatches)} of {self.judged} cases: the model of NumPy disagrees with NumPy")
+        if self.out_of_model:
+            self.coverage["out_of_model"] = self.out_of_model
+            if self.out_of_model > 0.05 * max(1, self.judged):
+                self.machinery(f"{self.out_of_model} of {self.judged} cases left the 32-bit-safe range of the specification")
         ev = {
             "property_id": self.prop,
             "tier": self.tier,
@@ -169,6 +174,10 @@ def validate_traces(out: Outcome, spec: str, cfg: str, clauses: list[str], items
         for i, (it, (clause, line)) in enumerate(zip(items, verdicts)):
             if clause == "ok":
                 counts["ok"] += 1
+                continue
+            if clause == "out_of_model":
+                counts[clause] += 1
+                out.out_of_model += 1
                 continue
             if clause.startswith("np_model_mismatch"):
                 # the specification's model of NumPy itself disagrees with the NumPy twin on this trace: the trace
